@@ -177,6 +177,9 @@ pub fn gen_apps(rng: &mut Rng, n: usize) -> Vec<AppSpec> {
     // now and then two apps whose ids differ only in letter case (distinct products for the library)
     if apps.len() >= 2 && rng.chance(1, 8) {
         apps[1].id = apps[0].id.to_uppercase();
+    } else if apps.len() >= 2 && rng.chance(1, 10) {
+        // one id a strict prefix of another
+        apps[1].id = format!("{}x", apps[0].id);
     }
     apps
 }
@@ -201,7 +204,15 @@ pub enum AppKind {
 
 pub fn doc_app(id: &str, kind: AppKind, rng: &mut Rng, cohorts: bool) -> DocApp {
     let uc = match kind {
-        AppKind::Offer => Some(UcSpec::ok(Some(&format!("9.{}.{}.0", rng.below(50), rng.below(50))))),
+        AppKind::Offer => {
+            let mut u = UcSpec::ok(Some(&format!("9.{}.{}.0", rng.below(50), rng.below(50))));
+            // url / package lists with 0, 1 or several entries (equal entries included)
+            if rng.chance(1, 4) {
+                u.codebases = (0..rng.usize(4)).map(|k| format!("http://pkg{}.example/", k % 2)).collect();
+                u.packages = (0..rng.usize(4)).map(|k| format!("pkg{}", k % 2)).collect();
+            }
+            Some(u)
+        }
         AppKind::OfferNoVersion => Some(UcSpec::ok(None)),
         AppKind::NoUpdate => Some(UcSpec::status("noupdate")),
         AppKind::Restricted => Some(UcSpec::status("restricted")),
@@ -269,7 +280,17 @@ pub fn gen_doc(rng: &mut Rng, apps: &[AppSpec], want_offer: Option<bool>, cohort
             if id.starts_with("{unknown") {
                 label.push('?');
             }
-            doc_app(id, *k, rng, cohorts)
+            let mut da = doc_app(id, *k, rng, cohorts);
+            // value relations: the offered version equals the installed one; a cohort equals the app id
+            if let (Some(uc), Some(app)) = (da.updatecheck.as_mut(), apps.iter().find(|a| a.id == *id)) {
+                if uc.manifest_version.is_some() && rng.chance(1, 8) {
+                    uc.manifest_version = Some(app.version_string());
+                }
+            }
+            if cohorts && rng.chance(1, 12) {
+                da.cohort[rng.usize(3)] = Some(id.clone());
+            }
+            da
         })
         .collect();
     let wrap = if rng.chance(1, 6) { 1 + rng.below(3) as u8 } else { 0 };
